@@ -72,4 +72,17 @@ GROUPS = {
             H("emit_op_byte_roundtrip", ["C05"], "impl From<u8> for Op"),
         ],
     },
+    "K-strslice": {
+        "timeout_quick": 600,
+        "timeout_thorough": 1800,
+        "assumptions": [
+            "K-strslice: koto_memory::Ptr is Rc (default `rc` feature); std's str::get / is_char_boundary / from_utf8 are executed by CBMC, not assumed",
+        ],
+        "harnesses": [
+            H("strslice_new_validates", ["C15", "C06"], "StringSlice::<usize>::new, as_str (unsafe get_unchecked)", bound="string data of <= 3 bytes of valid UTF-8 (1-, 2- and 3-byte characters); all bounds/offsets full-domain usize"),
+            H("strslice_with_bounds_stays_inside", ["C15", "C14", "C06"], "StringSlice::with_bounds, as_str", bound="string data of <= 3 bytes of valid UTF-8 (1-, 2- and 3-byte characters); all bounds/offsets full-domain usize"),
+            H("strslice_split_stays_inside", ["C15", "C06"], "StringSlice::split, as_str", bound="string data of <= 3 bytes of valid UTF-8 (1-, 2- and 3-byte characters); all bounds/offsets full-domain usize"),
+            H("strslice_u16_conversion", ["C15"], "StringSlice::try_convert, as_str", bound="string data of <= 3 bytes of valid UTF-8 (1-, 2- and 3-byte characters); all bounds/offsets full-domain usize"),
+        ],
+    },
 }
